@@ -88,6 +88,15 @@ CHECKS = {
              "container are compared with the model; any sanitizer report or crash is a violation.",
         note="the Python models of std::vector/map/string semantics are mine; range views only while the container is not structurally modified",
         design="4/C12"),
+    "C14": dict(
+        engine="hypothesis-runner",
+        category="exploration",
+        technique="model-based property testing over generated create/eval/destroy histories on reusable engine slots (placement new at a fixed address, heap) driven from long-lived threads",
+        text="Histories create, use and destroy engines in four slots (two of them static buffers, so that addresses are reused) from the main thread "
+             "and three worker threads that outlive every engine; each probe and get_locals() is compared with a dictionary model per engine "
+             "instance (locals per thread, globals and functions per instance).",
+        note="operations of a history run one at a time; the model of name lookup (thread's locals, then globals, then functions) is mine",
+        design="4/C14"),
     "C15": dict(
         engine="hypothesis-runner",
         category="exploration",
